@@ -138,6 +138,8 @@ def plan_c12(tier):
 
 
 HMC_ROOTS = ["0,0", "1,4", "2,4", "2,1", "3,4", "3,1", "4,4", "5,4", "6,4", "7,0", "8,0", "9,4", "9,1", "10,4", "10,1", "11,4", "12,4", "13,4", "14,4", "15,126", "15,64", "16,127", "17,4", "18,4"]
+ROOT_WEIGHT = {"14,4": 28, "15,126": 25, "15,64": 25, "9,4": 24, "18,4": 22, "12,4": 18, "11,4": 17, "10,4": 17, "9,1": 14, "10,1": 12, "8,0": 8, "17,4": 8, "16,127": 8, "3,4": 7, "2,4": 5, "4,4": 5, "6,4": 5, "5,4": 4, "13,4": 1, "0,0": 1, "1,4": 2, "7,0": 3, "2,1": 3, "3,1": 4}
+QUICK_SHALLOW = {"4,4": 3, "6,4": 3, "11,4": 3, "12,4": 3, "15,64": 3}
 HMC_RULE = ("explicit-state search by replay over the real crate under the oracle allocator: states = canonical keys of the concrete handle pool (representation, offsets, lengths, capacities, "
             "reference counts, control blocks, allocation sizes, lineage; modulo address renaming and slot permutation), transitions = every enabled operation of the alphabet with every boundary argument "
             "(0,1,len-1,len,cap-1,cap,alloc-len, +1 variants, usize::MAX / isize::MAX class) on every live handle, from each of 24 roots (all representations, payload 0/1/4; uniquely held shared handles with a front offset; capacity-128 and capacity-1024 buffers where size-relative policies and the original-capacity classes are active), "
@@ -162,8 +164,22 @@ def plan_hmc(prop, flags_quick, flags_thorough, oracle_text, profiles_quick=("re
             ws = hmc_workers(prop, 5, ["rel", "dbg"] if both_profiles_thorough else ["rel"], ["even", "odd"], flags_thorough)
             for alph, d in (("bytes", 7), ("bytesmut", 7), ("conv", 8)):
                 ws += hmc_workers(prop, d, ["rel"], ["even", "odd"], flags_thorough + ["--no-ooc", "--no-huge"], roots=["2,4", "3,4", "5,4", "9,4", "10,4"], alphabet=alph)
+            # third allocator configuration: byte buffers carved back to back out of one arena (real address adjacency of unrelated buffers)
+            ws += hmc_workers(prop, 5, ["rel"], ["adjacent"], flags_thorough)
         else:
-            ws = hmc_workers(prop, 4, list(profiles_quick), ["even", "odd"], flags_quick)
+            # roots whose representation coincides with another root's after construction are explored one level less
+            ws = hmc_workers(prop, 4, ["rel"], ["even", "odd"], flags_quick, extra_depth=QUICK_SHALLOW)
+            if "dbg" in profiles_quick:
+                # debug-assertions / overflow-check build: every root one level less, the offset-carrying BytesMut roots in full
+                ws += hmc_workers(prop, 3, ["dbg"], ["even", "odd"], flags_quick)
+                ws += hmc_workers(prop, 4, ["dbg"], ["even"], flags_quick, roots=["9,4", "14,4"])
+            ws += hmc_workers(prop, 4, ["rel"], ["adjacent"], flags_quick, roots=["2,4", "8,0", "9,4", "10,4", "10,1", "14,4"])
+        # longest-processing-time-first: heavy roots start first so that no long worker is left for the end
+        def cost(w):
+            a = w["args"]
+            r, d = a[a.index("--root") + 1], int(a[a.index("--depth") + 1])
+            return ROOT_WEIGHT.get(r, 10) * (12.0 ** (d - 4)) * (1.6 if w.get("profile") == "dbg" else 1.0)
+        ws.sort(key=lambda w: -cost(w))
         extra = None
         if with_loom:
             import loomrun
@@ -179,7 +195,7 @@ def plan_hmc(prop, flags_quick, flags_thorough, oracle_text, profiles_quick=("re
                 return r, e
         return dict(workers=ws, extra=extra, level="model_checking", distinct_is_max=False, rule=HMC_RULE + "; oracle of this check: " + oracle_text + (
                     "; additionally the loom program family of C05 (concurrent histories) is run and its violations of this property are reported here" if with_loom else ""),
-                    bounds="quick: depth 4 (root + 4 operations), full alphabet incl. out-of-contract arguments, both parities; thorough: depth 5 in rel+dbg x even+odd plus focused alphabets (Bytes-only, BytesMut structure, conversions) to depth 7-8",
+                    bounds="quick: depth 4 (root + 4 operations), full alphabet incl. out-of-contract arguments, both parities, release profile (5 roots whose representation coincides with another root one level less; + 6 roots in the adjacent-arena allocator configuration; checks that name profiles add the debug-assertions build at depth 3 and at depth 4 for the offset-carrying BytesMut roots); thorough: depth 5 in rel+dbg x even+odd plus focused alphabets (Bytes-only, BytesMut structure, conversions) to depth 7-8",
                     assumptions=["buffers <= 6 bytes; arguments are the listed boundary values", "data independence: byte values are not part of the state key (they are compared with the model on every execution)",
                                  "the hook descriptors are used only for the state key, never as an oracle"])
     return plan
